@@ -491,5 +491,3 @@ func srvPooled(o *Out, rig *srvRig, r *rand.Rand, id *int) {
 		o.Violate("c04.pooled.args-shared", fmt.Sprintf("a pooled argument object changed under a running handler %d times (shared between two requests in flight)", n), map[string]any{"connections": conns})
 	}
 }
-
-func runC15Ingress(o *Out, r *rand.Rand) {}
